@@ -2,7 +2,7 @@
 from .. import tables
 from ..callgraph import norm
 from ..cfg import Cfg, reach
-from ..common import (body_by_name, callee_names, family, last_named_field, logic_body, ref_field_of_local,
+from ..common import (body_by_name, callee_names, family, last_named_field, logic_body, logic_or_inlined, ref_field_of_local,
                       switch_atom)
 from ..facts import callee, const_int, op_const, op_local, op_place
 from ..flow import Flow, identity_through
@@ -222,7 +222,7 @@ def byte_fact(body, atom, buf_field, written, param_ok=None):
 
 def receive_rule(rep, prog, cfg, fn, flavour):
     rule = "C10.guard"
-    b = logic_body(prog, fn, {PARSE})
+    b = logic_or_inlined(prog, fn, {PARSE})
     if b is None:
         rep.fail(rule + ".anchor", "%s/%s" % (cfg, flavour), fn, "no body of %s calls ResponseBuilder::parse" % fn)
         return
